@@ -17,8 +17,8 @@ TRUST = ["critical values of scipy (norm, t) are antitone in alpha (oracle hypot
 
 # family -> (parameter, ordered menu from loose to strict)
 DRIFT_PARAM = {
-    "ADWIN": ("delta", [1.0, 0.9, 0.5, 0.1, 0.002]),
-    "ADWINAccuracy": ("delta", [1.0, 0.9, 0.5, 0.1, 0.002]),
+    "ADWIN": ("delta", [1.0, 0.9, 0.5, 0.1, 0.002, 1e-30, 0.0]),          # delta = 0 is legal (0 <= delta <= 1): the bound is infinite / NaN, never exceeded
+    "ADWINAccuracy": ("delta", [1.0, 0.9, 0.5, 0.1, 0.002, 1e-30, 0.0]),
     "CUSUM": ("threshold", [0.0, 1.0, 5.0, 20.0, 50.0]),
     "PageHinkley": ("threshold", [0.0, 0.25, 1.0, 5.0, 20.0, 50.0]),
     "DDM": ("drift_scale", [1.0, 2.0, 3.0, 4.0, 6.0]),
@@ -76,6 +76,8 @@ def ph_means(fam, cfg, hist, upto):
 
 
 def run(ctx):
+    import warnings
+    warnings.simplefilter("ignore", RuntimeWarning)     # delta = 0, empty epochs: inf / NaN bounds are legal and intended here
     per = 10 if ctx.quick else 80
     ctx.rule = ("for each detector family: histories x ordered pairs (loose, strict) of the detection threshold from menus that include the extremes and "
                 "defaults, all other parameters equal, identical seed schedule; first-drift indices compared; for DDM/EDDM/STEPD/LFR also pairs of warning "
@@ -108,6 +110,43 @@ def run(ctx):
                     loose[par], strict[par] = menu[i], menu[j]
                     check_pair(ctx, fam, loose, strict, par, hist, (name, "shape", hi, i, j))
                     ctx.count(f"{name}:structured-pairs")
+    # CUSUM with user-supplied target / sd_hat (the statistic runs from the first sample, so it can cross a threshold inside the
+    # burn-in) x a finer threshold menu x changes that start before the burn-in ends: whatever happens to the sums before the
+    # first alarm must not depend on the threshold
+    fam = zoo.BY_NAME["CUSUM"]
+    fine = [0.0, 1.0, 3.0, 4.0, 5.0, 10.5, 15.0, 20.0, 25.0, 50.0]
+    early = []
+    for at in (3, 10, 20):
+        for lvl in (1.0, -1.0, 0.5, 3.0):
+            early.append([float(srng.integers(-8, 9)) / 16.0 for _ in range(at)] + [lvl + float(srng.integers(-8, 9)) / 16.0 for _ in range(70)])
+    early += shapes[::3]
+    for hi, hist in enumerate(early if not ctx.quick else early[(ctx.seed % 2)::2]):
+        for bi, burn in enumerate((5, 30)):
+            cfg = dict(target=0.0, sd_hat=1.0, burn_in=burn, delta=[0.005, 0.25][(hi + bi) % 2], direction=[None, "positive", "negative"][hi % 3])
+            for i in range(len(fine)):
+                for j in range(i + 1, len(fine)):
+                    check_pair(ctx, fam, dict(cfg, threshold=fine[i]), dict(cfg, threshold=fine[j]), "threshold", hist, ("CUSUM", "known", hi, bi, i, j))
+                    ctx.count("CUSUM:known-target-pairs")
+    # ADWIN / ADWINAccuracy on streams with an exactly constant prefix (variance 0 at the first checks: the bound is 0, inf or NaN
+    # depending on delta), then a change -- all ordered pairs of the menu incl. delta = 0
+    for name in ("ADWIN", "ADWINAccuracy"):
+        fam = zoo.BY_NAME[name]
+        par, menu = DRIFT_PARAM[name]
+        for hi in range(3 if ctx.quick else 12):
+            hrng = np.random.default_rng([ctx.seed, 173, hi])
+            cfg = fam.config(hrng)
+            pre = int(hrng.integers(34, 90))
+            if name == "ADWIN":
+                c0 = float(hrng.integers(-2, 3))
+                hist = [c0] * pre + [c0 + float(hrng.integers(1, 4)) + float(hrng.integers(-8, 9)) / 16.0 for _ in range(80)]
+            else:
+                hist = [(1, 1)] * pre + [(int(hrng.integers(0, 2)), int(hrng.integers(0, 2))) for _ in range(80)]
+            for i in range(len(menu)):
+                for j in range(i + 1, len(menu)):
+                    loose, strict = dict(cfg), dict(cfg)
+                    loose[par], strict[par] = menu[i], menu[j]
+                    check_pair(ctx, fam, loose, strict, par, hist, (name, "constant-prefix", hi, i, j))
+                    ctx.count(f"{name}:constant-prefix-pairs")
     names = list(DRIFT_PARAM)
     for name in names:
         fam = zoo.BY_NAME[name]
